@@ -421,6 +421,7 @@ def check(repo, run, tier):
     g(unitrules.stream_init, repo, run, 'C06.R7')
     g(unitrules.path_node_tables, repo, run, 'C06.R6')
     g(unitrules.tag_spec, repo, run, 'C06.R2', ['!include', '!rec', '!path', '!path:'])
+    g(unitrules.current_file_tracking, repo, run, 'C06.R10')
     g.done()
 
 
@@ -438,6 +439,7 @@ def merge_two(r):
 
 def mutants(repo):
     return [
+        Mutant('opened-file-not-recorded', lambda r: in_func(r, 'Builder.add_source', "                    self._current_file = source\n", "                    pass\n"), ['C06.R10']),
         Mutant('multi-constructors-not-registered', lambda r: in_func(r, 'yaml.add_multi_constructor', "    yaml.add_multi_constructor(tag, constructor, Loader=AwesomeyamlLoader)", "    pass"), ['C06.R2']),
         Mutant('parent-clamp-negated', lambda r: in_func(r, 'PathNode.ayns.on_evaluate_impl', "if ref_point_args >= len(src.parents):", "if not ref_point_args >= len(src.parents):"), ['C06.R6']),
         Mutant('path-ref-point-parse', lambda r: in_func(r, 'PathNode.__init__', "            if parent_match:\n                idx = 0", "            if not parent_match:\n                idx = 0"), ['C06.R6']),
